@@ -13,21 +13,32 @@ ParentOK(t, k) == Parent[k] = "root" \/ Present(t, Parent[k])
 ParentEph(t, k) == Parent[k] # "root" /\ Present(t, Parent[k]) /\ t[Parent[k]].eph # "none"
 Kids(t, k) == {c \in Key : Parent[c] = k /\ Present(t, c)}
 
-\* with parents created as plain empty nodes
-WithParents(t, k) == IF Parent[k] # "root" /\ ~Present(t, Parent[k])
-                     THEN [t EXCEPT ![Parent[k]] = [val |-> "empty", eph |-> "none"]] ELSE t
+\* with all missing ancestors created as plain empty nodes (key space of depth <= 3)
+Empty == [val |-> "empty", eph |-> "none"]
+WithParents(t, k) ==
+    LET p1 == Parent[k] IN
+    IF p1 = "root" THEN t
+    ELSE LET p2 == Parent[p1]
+             t1 == IF p2 # "root" /\ ~Present(t, p2) THEN [t EXCEPT ![p2] = Empty] ELSE t
+         IN IF ~Present(t1, p1) THEN [t1 EXCEPT ![p1] = Empty] ELSE t1
+\* nearest existing ancestor is ephemeral: nothing can be created below it
+AncEph(t, k) ==
+    LET p1 == Parent[k] IN
+    IF p1 = "root" THEN FALSE
+    ELSE IF Present(t, p1) THEN t[p1].eph # "none"
+    ELSE LET p2 == Parent[p1] IN p2 # "root" /\ Present(t, p2) /\ t[p2].eph # "none"
 
 \* result and next tree of one operation e = [op, client, key, val]
 Res(t, e) ==
   CASE e.op = "Create" \/ e.op = "CreateEphemeral" ->
          IF Present(t, e.key) THEN "exists"
          ELSE IF ~ParentOK(t, e.key) \/ ParentEph(t, e.key) THEN "err" ELSE "ok"
-    [] e.op = "Set" -> IF ~Present(t, e.key) /\ ParentEph(t, e.key) THEN "err" ELSE "ok"
+    [] e.op = "Set" -> IF ~Present(t, e.key) /\ AncEph(t, e.key) THEN "err" ELSE "ok"
     [] e.op = "SetEphemeral" ->
          \* on an existing plain key the code refuses; the property only demands that the key
          \* stays plain (checked on the snapshot), so a plain overwrite is allowed as well
          IF Present(t, e.key) THEN (IF t[e.key].eph = "none" THEN (IF e.res = "ok" THEN "ok" ELSE "err") ELSE "ok")
-         ELSE IF ParentEph(t, e.key) THEN "err" ELSE "ok"
+         ELSE IF AncEph(t, e.key) THEN "err" ELSE "ok"
     [] e.op = "Get" -> IF ~Present(t, e.key) THEN "notfound"
                        ELSE IF t[e.key].val \in {"bad", "empty"} THEN "malformed" ELSE "ok"
     [] e.op = "Delete" -> IF Present(t, e.key) /\ Kids(t, e.key) # {} THEN "err" ELSE "ok"
